@@ -95,21 +95,25 @@ def run(F, res, tier):
                ok, where=f.loc(s["ln"]), how=why, reviewed=reviewed)
     # search hits: sink(find_file(node).file_id, node.text_range())
     for nme in ("found_name", "found_name_ref", "found_type_name", "found_label"):
-        f = F.fn("ide::def::search::FindUsages::" + nme)
-        d = FL.Defs(f)
+        f0 = F.fn("ide::def::search::FindUsages::" + nme)
         ok = False
-        for b, t in f.calls():
-            if "fnop" in t or (callee_def(t) or "").endswith("FnMut::call_mut") or (callee(t) or "").endswith("call_mut"):
-                tup = d.origin_op(t["args"][-1])
-                if tup.get("k") == "agg" and len(tup["rv"]["ops"]) == 2:
-                    a0 = d.origin_op(tup["rv"]["ops"][0])
-                    a1 = d.origin_op(tup["rv"]["ops"][1])
-                    b0 = a0
-                    while b0.get("k") == "field":
-                        b0 = b0["base"]
-                    n0 = d.origin_op(b0["t"]["args"][1], ("AstNode>::syntax",)) if b0.get("k") == "call" and (callee(b0["t"]) or "").endswith("Semantics::find_file") else {}
-                    n1 = d.origin_op(a1["t"]["args"][0], ("AstNode>::syntax",)) if a1.get("k") == "call" and (callee(a1["t"]) or "").endswith("text_range") else {}
-                    ok = bool(n0) and bool(n1) and n0.get("l") == n1.get("l") and n0.get("k") == n1.get("k")
+        from lib import inline as IL
+        for f in (f0, IL.inlined(F, f0, depth=1)):      # second try: the body may have moved into a helper
+          if ok:
+            break
+          d = FL.Defs(f)
+          for b, t in f.calls():
+              if "fnop" in t or (callee_def(t) or "").endswith("FnMut::call_mut") or (callee(t) or "").endswith("call_mut"):
+                  tup = d.origin_op(t["args"][-1])
+                  if tup.get("k") == "agg" and len(tup["rv"]["ops"]) == 2:
+                      a0 = d.origin_op(tup["rv"]["ops"][0])
+                      a1 = d.origin_op(tup["rv"]["ops"][1])
+                      b0 = a0
+                      while b0.get("k") == "field":
+                          b0 = b0["base"]
+                      n0 = d.origin_op(b0["t"]["args"][1], ("AstNode>::syntax",)) if b0.get("k") == "call" and (callee(b0["t"]) or "").endswith("Semantics::find_file") else {}
+                      n1 = d.origin_op(a1["t"]["args"][0], ("AstNode>::syntax",)) if a1.get("k") == "call" and (callee(a1["t"]) or "").endswith("text_range") else {}
+                      ok = bool(n0) and bool(n1) and n0.get("l") == n1.get("l") and n0.get("k") == n1.get("k")
         res.ob("A2", "hit/" + nme, "FindUsages::%s reports (file of the node, text_range of the same node)" % nme, ok, where=f.loc(),
                how="both derive from the same node" if ok else "provenance not established")
     from rules import c06
@@ -120,9 +124,28 @@ def run(F, res, tier):
            where="crates/syntax/src/parser.rs", how=str(errs))
     pe = F.fn(PM.P + "error")
     d = FL.Defs(pe)
-    clos = [F.fns[c] for c in F.closures_of(pe.path)]
+    # the two cases may be closures (map / unwrap_or_else) or arms of a match in error() itself
+    clos = [F.fns[c] for c in F.closures_of(pe.path)] + [pe]
     tok_range = False
+    rng_l = None
+    for b_, i_, s0 in pe.stmts():
+        rv0 = s0.get("rv")
+        if rv0 and rv0["k"] == "agg" and (rv0.get("adt") or "").endswith("syntax::Error"):
+            rng_l = FL.op_place(rv0["ops"][rv0["fields"].index("range")]) if hasattr(FL, "op_place") else None
     for cf in clos:
+        if cf is pe:
+            # match form: some definition of the Error's range local copies tokens[pos].range
+            for b_, i_, s_ in pe.stmts():
+                if s_["k"] == "assign" and s_["rv"]["k"] == "use":
+                    pl_ = s_["rv"]["op"].get("cp") or s_["rv"]["op"].get("mv")
+                    if pl_ and pl_.get("p") and isinstance(pl_["p"][-1], dict) and pl_["p"][-1].get("n") == "range":
+                        o_ = d.origin_place({"l": pl_["l"], "p": pl_["p"][:-1]})
+                        base_ = o_
+                        while base_.get("k") == "field":
+                            base_ = base_["base"]
+                        if base_.get("k") == "call" and (callee(base_["t"]) or "").endswith("[T]::get"):
+                            tok_range = True
+            continue
         dc0 = FL.Defs(cf)
         for b, i, s_ in cf.stmts():
             if s_["k"] == "assign" and s_["place"]["l"] == 0 and not s_["place"]["p"] and s_["rv"]["k"] == "use":
